@@ -496,7 +496,8 @@ impl Property for C13 {
         if crash_script.opts.targets.is_empty() && sc.checkpoint {
             crash_script.opts.targets = sc.spec.targets.iter().map(|t| t.path.clone()).collect();
         }
-        crash_script.strategy = Strategy::PlanOrder;
+        // step_script's order (a failing child is released last) keeps every status of the run a
+        // function of the script, so the recording pass predicts the completed run exactly
         // ---- recording pass: the same run, uninterrupted, from the same state
         let fslog = w.root.join(".fs.log");
         let _ = std::fs::remove_file(&fslog);
